@@ -1,5 +1,6 @@
 import AvoVerif.Drv.Common
 import AvoVerif.Model.Func
+import AvoVerif.Props.C09Accept
 namespace Avo.Drv.C09
 open Avo.Drv Avo.Func
 
@@ -30,42 +31,64 @@ def parseNode (spec : Bool) : List String → Option (Node × List String)
 def parseNodes (ts : List String) (spec : Bool := false) : Option (List Node × List String) :=
   listOf (parseNode spec) ts
 
-def sortDedup (xs : List Int) : List Int :=
+def sortDedup (xs : List Nat) : List Nat :=
   let a := xs.toArray.qsort (· < ·)
   a.toList.eraseDups
-
-def succInt : Option Nat → Int
-  | none => -1
-  | some n => n
-
-def intList (xs : List Int) : String := joinSp (toString xs.length :: xs.map toString)
 
 def errName : Err → String
   | .dupLabel => "dup" | .trailingLabel => "trailing" | .noLabel => "nolabel" | .unknownLabel => "unknown"
 
-def render (nodes : List Node) : String :=
-  match buildCFG nodes with
-  | .error _ => "err"   -- which of the four errors is reported first is not part of the property
-  | .ok g =>
-    let ss := g.succ.map (fun s => intList (sortDedup (s.map succInt)))
-    let ps := g.pred.map (fun p => intList (sortDedup (p.map (fun (n : Nat) => (n : Int)))))
-    joinSp (["ok", toString g.succ.length] ++ ss ++ ps)
+/-- The model's outcome in the canonical text form: successor and predecessor index sets, sorted, without
+duplicates; Go's nil successor (fall off the end) is not part of the outcome (`Avo.Func.outcomeOf`). -/
+def renderOutcome : Outcome → String
+  | .err => "err"   -- which of the four errors is reported first is not part of the property
+  | .graph s p =>
+    joinSp (["ok", toString s.length] ++ s.map (fun x => natList (sortDedup x)) ++ p.map (fun x => natList (sortDedup x)))
+
+def render (nodes : List Node) : String := renderOutcome (outcomeOf (buildCFG nodes))
+
+/-- `k x1 … xk` -/
+def natListTok (ts : List String) : Option (List Nat × List String) :=
+  listOf (fun ts => match ts with
+    | t :: rest => t.toNat?.map (·, rest)
+    | [] => none) ts
+
+def nLists : Nat → List String → Option (List (List Nat) × List String)
+  | 0, ts => some ([], ts)
+  | n + 1, ts => do
+    let (x, ts) ← natListTok ts
+    let (xs, ts) ← nLists n ts
+    some (x :: xs, ts)
+
+/-- The implementation's answer: `err` | `ok n succ-lists pred-lists`. A panic is not an outcome the
+property allows. -/
+def parseOutcome : List String → Option Outcome
+  | ["err"] => some .err
+  | "ok" :: n :: ts => do
+    let n ← n.toNat?
+    let (s, ts) ← nLists n ts
+    let (p, ts) ← nLists n ts
+    if ts.isEmpty then some (.graph s p) else none
+  | _ => none
 
 def handle : Handler
   | "cfg" :: rest => do
     let (nodes, _) ← parseNodes rest
     some (render nodes)
   | "accept-cfg" :: rest => do
-    -- judged with the control-flow class of each opcode as x86 defines it
+    -- judged with the control-flow class of each opcode as x86 defines it, by the acceptor of
+    -- Props/C09Accept.lean (`acceptCFG_sound`: accepted ⇒ the outcome meets the property)
     let (nodes, rest) ← parseNodes rest (spec := true)
     match rest with
     | "=>" :: impl =>
-      let m := render nodes
-      let implS := joinSp impl
-      -- The property pins the graph exactly, and demands *an* error (not a particular message).
-      if m.startsWith "err" then
-        some (if implS.startsWith "err" then "ok" else "bad-missing-error want " ++ m)
-      else some (if implS == m then "ok" else "bad-graph want " ++ m)
+      match parseOutcome impl with
+      | none => some ("bad-outcome (panic or unreadable) want " ++ render nodes)
+      | some o =>
+        if acceptCFG nodes o then some "ok"
+        else match o, outcomeOf (buildCFG nodes) with
+          | .graph _ _, .err => some "bad-missing-error want err"
+          | .err, m => some ("bad-spurious-error want " ++ renderOutcome m)
+          | _, m => some ("bad-graph want " ++ renderOutcome m)
     | _ => none
   | _ => none
 
